@@ -204,7 +204,7 @@ func (c *Ctx) eval(x Expr) CVal {
 			case *types.Slice:
 				h := c.st.heapGet(e, elemHeapName(u.Elem()), arrSort(arrSort(e.reg.sortOf(u.Elem()))))
 				arr := tSelect(h, Term{app("Slice_arr", b.T.S), sInt})
-				idx := Term{app("+", app("Slice_off", b.T.S), i.S), sInt}
+				idx := sidx(b.T, i)
 				return CVal{T: tSelect(arr, idx), GT: u.Elem()}
 			case *types.Basic:
 				if u.Info()&types.IsString != 0 {
@@ -325,6 +325,17 @@ func (c *Ctx) evalCall(x *ECall) CVal {
 	case "allocated":
 		v := c.evalInt(x.Args[0])
 		return CVal{T: tAnd(Term{app("<=", "0", v.S), sBool}, Term{app("<", v.S, c.st.alloc.S), sBool})}
+	case "as": // as(x, T): view an interface / pointer value as *T
+		v := c.eval(x.Args[0])
+		id, ok := x.Args[1].(*EIdent)
+		if !ok {
+			cfail("as(x, T): type name expected")
+		}
+		t := e.p.typeByText("*" + id.Name)
+		if t == nil {
+			cfail("as: unknown type %s", id.Name)
+		}
+		return CVal{T: v.T, GT: t}
 	case "elems": // contents of a slice as a mathematical array (offset must be 0)
 		v := c.eval(x.Args[0])
 		sl, ok := v.GT.Underlying().(*types.Slice)
